@@ -31,6 +31,7 @@ def run(chk: Check) -> None:
     run_abspath_normalised(chk, ix)
     run_verify_module_is_universal(chk, ix)
     run_stem_claimed_by_sources_only(chk, ix)
+    run_explicit_bases_cover_search_roots(chk, ix)
     r1 = chk.rule("R18.1", "load_graph: every insertion of a State into the graph is dominated by the duplicate test for its kind (module id already in graph / file already seen under another id), whose clash branch reports a blocker and raises", floor=5)
     lg = ix.func("mypy.build.load_graph")
     g = CFG(lg.node)
@@ -242,3 +243,60 @@ def run_stem_claimed_by_sources_only(chk: Check, ix) -> None:
             r6.ok(key, f.loc(c))
         else:
             r6.violation(key, f.loc(c), f"`{norm(c)}` is reached for every sub-directory (conditions: {[norm(t)[:50] for t in pos]}): `pkg/fixtures/` holding only data files makes `mypy pkg` skip `pkg/fixtures.py` silently, while `mypy pkg/fixtures.py ...` and `mypy -p pkg` check it")
+
+
+def run_explicit_bases_cover_search_roots(chk: Check, ix) -> None:
+    """R18.7: with --explicit-package-bases, every root the import side searches is a package base for the crawler."""
+    r7 = chk.rule("R18.7", "modulefinder.compute_search_paths searches MYPYPATH (mypy_path()), the config file's mypy_path and, always, the current directory for source modules; find_sources.get_explicit_package_bases() gives the crawler the roots at which a directory chain without __init__.py files stops, so the same file gets the same module name from `mypy dir`, `mypy file...` and `-p`. The `roots` expression is evaluated for all four combinations of empty / non-empty MYPYPATH and mypy_path: the result always contains the MYPYPATH entries, the mypy_path entries and the current directory", floor=1)
+    f = ix.func("mypy.find_sources.get_explicit_package_bases")
+    csp = ix.func("mypy.modulefinder.compute_search_paths")
+    if not any(isinstance(c, ast.Call) and norm(c.func) == "os.getcwd" for c in ast.walk(csp.node)) or not any(isinstance(c, ast.Call) and call_name(c) == "mypy_path" for c in ast.walk(csp.node)):
+        raise AnalysisError("compute_search_paths no longer searches mypy_path() and os.getcwd(): R18.7 needs re-reading")
+    defs = [a.value for a in ast.walk(f.node) if isinstance(a, ast.Assign) and len(a.targets) == 1 and isinstance(a.targets[0], ast.Name) and a.targets[0].id == "roots"]
+    if len(defs) != 1:
+        raise AnalysisError(f"get_explicit_package_bases: {len(defs)} definitions of `roots` found")
+
+    class NoEval(Exception):
+        pass
+
+    def ev(e: ast.expr, env):
+        if isinstance(e, ast.Call) and call_name(e) == "mypy_path" and not e.args:
+            return list(env["env"])
+        if isinstance(e, ast.Attribute) and e.attr == "mypy_path":
+            return list(env["cfg"])
+        if isinstance(e, ast.Call) and norm(e.func) == "os.getcwd":
+            return "<cwd>"
+        if isinstance(e, ast.List):
+            return [ev(x, env) for x in e.elts]
+        if isinstance(e, ast.BinOp) and isinstance(e.op, ast.Add):
+            return ev(e.left, env) + ev(e.right, env)
+        if isinstance(e, ast.BoolOp):
+            v = None
+            for x in e.values:
+                v = ev(x, env)
+                if isinstance(e.op, ast.Or) and v:
+                    return v
+                if isinstance(e.op, ast.And) and not v:
+                    return v
+            return v
+        if isinstance(e, ast.IfExp):
+            return ev(e.body, env) if ev(e.test, env) else ev(e.orelse, env)
+        if isinstance(e, ast.Call) and isinstance(e.func, ast.Name) and e.func.id == "list" and len(e.args) == 1:
+            return list(ev(e.args[0], env))
+        raise NoEval(norm(e)[:60])
+    key = "get_explicit_package_bases: the roots contain MYPYPATH, mypy_path and the current directory"
+    missing = []
+    try:
+        for envp in ([], ["<E>"]):
+            for cfgp in ([], ["<C>"]):
+                got = ev(defs[0], {"env": envp, "cfg": cfgp})
+                want = envp + cfgp + ["<cwd>"]
+                lack = [w for w in want if w not in got]
+                if lack:
+                    missing.append(f"MYPYPATH={envp} mypy_path={cfgp}: {lack} missing")
+    except NoEval as e:
+        raise AnalysisError(f"get_explicit_package_bases: cannot evaluate `{e}` in the roots expression")
+    if not missing:
+        r7.ok(key, f.loc(defs[0]))
+    else:
+        r7.violation(key, f.loc(defs[0]), f"`roots = {norm(defs[0])[:80]}`: {'; '.join(missing)}: a file under the working directory in an __init__-less directory is named by its bare stem (`gen`) by the crawler and `tools.gen` by the import side ('Source file found twice under different module names'), while `-p tools` is clean")
